@@ -20,19 +20,19 @@ CHECKS = {
    "Correspondence: every definition's next cell after every update and next chains followed from inside definitions; the spec oracle nextB recomputes them from the registry.",
    "proof of best() + differential correspondence of next cells and chains"),
  "C04": ("proof", "5.4",
-   "Theorems: compile_slots_exclusive - after update on any registry without inheritance cycles (trees, lattices, several roots, any mixture, any presentation of the base lists), two different (method, virtual parameter) pairs whose parameter classes both cover a class never share a slot (invariant SInvK kept by assign_tree_slots by windows stacked along the ancestor chain, by assign_lattice_slots via the used/reserved bit sets, across roots by a visited-set argument); vtbl_entry - the v-table of every class acceptable for a parameter holds at that slot the entry (method, parameter, group of the class), whatever else was written; C01_update_then_call - the walk of a legal call succeeds, hence (read_in_bounds) every word it reads lies inside the words this update wrote; call_runs_only_functions - a call jumps only through a function-tagged word of the same method. Correspondence: slots, first slots, v-table entries, dispatch_data size and layout; ASan + UBSan on the real update and walk (a crash or abort of the real code where the model completes is reported as the failing input); the statement of C04 re-evaluated on every dump. PARTIAL: that compile/install themselves never fault (writes of update in range) is established per input by the correspondence, not yet as a theorem.",
+   "Theorems: compile_slots_exclusive - after update on any registry without inheritance cycles (trees, lattices, several roots, any mixture, any presentation of the base lists), two different (method, virtual parameter) pairs whose parameter classes both cover a class never share a slot (invariant SInvK kept by assign_tree_slots by windows stacked along the ancestor chain, by assign_lattice_slots via the used/reserved bit sets, across roots by a visited-set argument); vtbl_entry - the v-table of every class acceptable for a parameter holds at that slot the entry (method, parameter, group of the class), whatever else was written; C01_update_then_call - the walk of a legal call succeeds, hence (read_in_bounds) every word it reads lies inside the words this update wrote; call_runs_only_functions - a call jumps only through a function-tagged word of the same method. Correspondence: slots, first slots, v-table entries, dispatch_data size and layout; ASan + UBSan on the real update and walk (a crash or abort of the real code where the model completes is reported as the failing input); the statement of C04 re-evaluated on every dump. C04_update_stays_in_bounds: compile and install, whose every out-of-range access is a fault in the model, succeed on every registry without inheritance cycles or stop for a documented reason (unknown class, definition of the wrong arity); C04_slot_inside_vtable: first slot <= slot < first slot + size for every class a slot can be read through; C04_reads_inside_dispatch_data: the words written fit in dispatch_data as sized by the same update.",
    "invariant proof of both slot allocators and of the v-table content + differential correspondence + sanitizers"),
  "C05": ("proof", "5.5",
    "Theorems, for every multiplier stream, id lists, initial hash_min/max and budget: if the search returns found, every registered id has its own index below the installed length and its bucket holds the id (C05_installed_hash_is_perfect), no unregistered id is in any bucket (C05_buckets_hold_only_registered), and the checked lookup rejects every unregistered id (C05_checked_rejects_unregistered; the reserved all-ones id excluded); lookup_published - after a successful publish_vptrs every id registered for class c is found and yields the entry this update wrote for c, for the plain vector, the fast hash, the checked hash and the map. Correspondence: multiplier, shift, length, min, max, control, vptrs over id families, sizes 0-300 (2000 thorough), growing/shrinking update histories, exhausted budgets through the hook; a direct lookup battery of registered and formerly registered ids.",
    "fold-invariant proof of the hash search and of publication + differential correspondence with the implementation's own multiplier stream"),
  "C06": ("proof", "5.6", "Theorems (specification level): the selected definition, the not-implemented outcome, applicability and specificity depend only on the sets of class records and definitions (C06_selected_perm, C06_not_implemented_perm). "
-   "Correspondence: each registry in 4 registration orders; observables must be equal across orders and each order equal to the model. Model-level order independence follows from C01 once closed (partial).",
+   "Correspondence: each registry in 4 registration orders; observables must be equal across orders and each order equal to the model. C06_outcome_perm: the whole outcome (selected / not implemented / ambiguous) is independent of the order of class records and definitions; C06_call_order_independent (model level, via the end-to-end theorem of C01): two programs differing only in the order of registration make the same call do the same thing.",
    "proof on the specification + permutation differential testing"),
- "C07": ("proof", "5.7", "Theorems: a completed update installs exactly what a fresh compile+install of the current catalogs produces, independently of every persistent table (update_installs_fresh, tables_depend_on_catalogs_only); removed definitions are gone from the catalog, added ones present. "
+ "C07": ("proof", "5.7", "Theorems: a completed update installs exactly what a fresh compile+install of the current catalogs produces, independently of every persistent table (update_installs_fresh, tables_depend_on_catalogs_only); removed definitions are gone from the catalog, added ones present; C07_after_any_history: after a successful update a call does what the specification prescribes for the registrations live now, whatever persistent state the history left (the end-to-end theorem quantifies over every state). "
    "Correspondence: random load/unload histories under 9 flavours incl. deferred ids, each compared with the model and with a fresh process holding the surviving registrations.",
    "refinement-style proof on the state machine + history differential testing"),
  "C08": ("proof", "5.8",
-   "Theorems: every outcome and the next candidates depend on the registry only through Derives (C08_selects_congr, C08_moreGeneral_congr); listing a derivable base redundantly leaves Derives unchanged; the model infers the inheritance relation from any presentation (model_infers_inheritance = cov_iff_derives), transitive_bases are complete for every presentation (graph_complete), hence by the end-to-end theorem of C01 and compile_slots_exclusive the dispatch result and the exclusivity of v-table cells hold for every presentation and record order. Correspondence: each graph under 5 presentations (complete, direct-only, supersets with duplicates, split records, without self), each also with the records in random order (derived classes before their bases), equal observables and exact agreement with the model.",
+   "Theorems: every outcome and the next candidates depend on the registry only through Derives (C08_selects_congr, C08_moreGeneral_congr); listing a derivable base redundantly leaves Derives unchanged; the model infers the inheritance relation from any presentation (model_infers_inheritance = cov_iff_derives), transitive_bases are complete for every presentation (graph_complete), C08_call_presentation_independent (model level): two programs describing the same inheritance relation with the same definitions make the same call do the same thing; cells stay exclusive for every presentation (compile_slots_exclusive). Correspondence: each graph under 5 presentations (complete, direct-only, supersets with duplicates, split records, without self), each also with the records in random order (derived classes before their bases), equal observables and exact agreement with the model.",
    "proof on specification and model + presentation / record-order differential testing"),
  "C09": ("proof", "5.9", "Theorems on the model of virtual_ptr: a pointer made from a reference dereferences to what a plain reference lookup yields (deref_new_direct), copies dereference like the original, indirect pointers read the class's static cell in the state of the call and so survive updates (indirect_survives_update), direct ones fault after the next update. "
    "Correspondence: construction routes (base reference, exact static type, final, copy, move) under 8 policies, each call made through references and through virtual_ptrs, updates in between. PARTIAL: smart-pointer flavours are template glue, observed only by H-prog.",
